@@ -76,7 +76,9 @@ def gen_values(dist, seed, full_shape, dtype):
             if dist == 'subnormal':
                 a = rng.integers(1, 2 ** 23, size=n, dtype=np.uint32).view(np.float32).copy()
             elif dist in ('nan', 'bits'):
-                a = rng.integers(0, 2 ** 32, size=n, dtype=np.uint32).view(np.float32).copy()
+                b = rng.integers(0, 2 ** 32, size=n, dtype=np.uint32)
+                b |= np.where((b & np.uint32(0x7F800000)) == np.uint32(0x7F800000), np.uint32(0x00400000), np.uint32(0))   # quiet NaNs only
+                a = b.view(np.float32).copy()
             else:
                 with np.errstate(over='ignore', under='ignore'):
                     a = gen_floats(dist, rng, n).astype(np.float32)
@@ -98,14 +100,27 @@ def gen_values(dist, seed, full_shape, dtype):
 
 
 def layout(a, how, seed):
-    """the same values in a different memory layout"""
+    """the same values in a different memory layout (provenance of the operand array)"""
     if how == 'F' and a.ndim >= 2:
         return np.asfortranarray(a)
     if how == 'strided' and a.ndim >= 1 and a.shape[0] > 0:
         big = np.zeros((a.shape[0] * 2,) + a.shape[1:], dtype=a.dtype)
         big[::2] = a
         return big[::2]
+    if how == 'neg' and a.ndim >= 1:                 # negative stride on the first axis
+        return a[::-1].copy()[::-1]
+    if how == 'perm01' and a.ndim >= 2:              # axis-permuted view: neither C- nor F-contiguous for rank >= 3
+        return np.ascontiguousarray(a.swapaxes(0, 1)).swapaxes(0, 1)
+    if how == 'permlast' and a.ndim >= 2:            # last axis moved in from the front
+        return np.moveaxis(np.ascontiguousarray(np.moveaxis(a, -1, 0)), 0, -1)
+    if how == 'inner' and a.ndim >= 1 and a.shape[-1] > 0:   # inner stride 2 elements
+        big = np.zeros(a.shape[:-1] + (a.shape[-1] * 2,), dtype=a.dtype)
+        big[..., ::2] = a
+        return big[..., ::2]
     return a
+
+
+VALUE_LAYOUTS = ['C', 'F', 'strided', 'neg', 'perm01', 'permlast', 'inner']
 
 
 # ------------------------------------------------------------------------------------------ masks
@@ -178,6 +193,8 @@ def build_one(d, shape, parent_mask=None):
             vals = np.broadcast_to(vals, shape + numer + denom)
     m = d.get('mask', 'F')
     mask = parent_mask if m == 'parent' else gen_mask(m, shape)
+    if isinstance(mask, np.ndarray) and m != 'parent' and d.get('mlayout'):
+        mask = layout(mask, d['mlayout'], 0)
     kw = {}
     if d.get('units'):
         kw['units'] = UNITS[d['units']]
@@ -188,6 +205,35 @@ def build_one(d, shape, parent_mask=None):
     if cls is Boolean:
         kw = {}
     return cls(vals, mask, **kw)
+
+
+def post_op(q, t):
+    """operations applied to the finished object before it is pickled (provenance of the object)"""
+    rank = len(q._shape_)
+    if t == 'swap' and rank >= 2:
+        return q.swap_axes(0, -1)
+    if t == 'move' and rank >= 2:
+        return q.move_axis(0, -1)
+    if t == 'slice2' and rank >= 1 and q._shape_[0] >= 2:
+        return q[::2]
+    if t == 'rev' and rank >= 1:
+        return q[::-1]
+    if t == 'tail' and rank >= 1 and q._shape_[0] >= 2:
+        return q[1:]
+    if t == 'reshape' and rank >= 2:
+        return q.reshape((q._shape_[0] * q._shape_[1],) + q._shape_[2:])
+    if t == 'warm':                                  # warm caches
+        q.corners; q.antimask; q._slicer; q.wod
+        for d in q._derivs_.values():
+            d.antimask; d.corners
+        return q
+    if t == 'warmshrink' and rank >= 1 and isinstance(q._mask_, np.ndarray):
+        q.shrink(q.antimask)
+        return q
+    return q
+
+
+POST_OPS = ['swap', 'move', 'slice2', 'rev', 'tail', 'reshape', 'warm', 'warmshrink']
 
 
 def build(case):
@@ -201,6 +247,8 @@ def build(case):
         if d.get('readonly'):
             dq = dq.as_readonly()
         q.insert_deriv(d['key'], dq)
+    for t in case.get('post', []):
+        q = post_op(q, t)
     if case.get('digits') is not None and not case.get('digits_first'):
         q.set_pickle_digits(jsonval(case['digits']), jsonval(case['reference']))
     if case.get('readonly'):
